@@ -92,7 +92,12 @@ def h_shift(e, cfg):
     ishape = tuple(U.inshape)
     cmode, tau, smode = interp_modes(syn)
     hist_cur, hist_spk, hist_pos, hist_neg = [], [], [], []
-    for t in range(cfg["T"]):
+    for t in range(cfg["T"] + cfg.get("after_clear", 0)):
+        if t == cfg["T"]:
+            # "... or the last clear": both connections are cleared, history restarts from the resting state
+            D.clear(); U.clear()
+            hist_cur, hist_spk, hist_pos, hist_neg = [], [], [], []
+            e.tag(phase="after-clear")
         x = e.sym((B, *ishape), torch.bool, f"x{t}", ind=True)
         args = (x,)
         if syn == "deltaplus":
@@ -172,19 +177,6 @@ def h_shift(e, cfg):
             e.oblige_eq("zero-delay:same-as-undelayed", outD, e.read(outU), step=t)
         e.oblige_eq("shift:syncurrent", D.syncurrent, sc, split=True, step=t)
         e.oblige_eq("shift:synspike", D.synspike, ss, split=True, step=t)
-    if cfg.get("clear"):
-        D.clear(); U.clear()
-        x = e.sym((B, *ishape), torch.bool, "xc", ind=True)
-        args = (x,) if syn != "deltaplus" else (x, e.sym((B, *ishape), torch.float32, "jc", lo=-5, hi=5))
-        if kind == "conv":
-            args = tuple(a.float() for a in args)
-        outD, outU = D(*args), U(*args)
-        # after clear only the present step exists: contributions with d > 0 on the grid are the resting state
-        cur = e.read(U.synapse.current)
-        e.oblige("clear:ran", True)
-        if cfg["delays"] == "zero":
-            e.oblige_eq("clear:zero-delay-same", outD, e.read(outU))
-
 
 def checks(tier):
     th = tier == "thorough"
@@ -199,18 +191,18 @@ def checks(tier):
                         if not th and syn == "delta-nearest" and kind != "dense":
                             continue
                         for B in ((1, 2) if th else (1,)):
-                            cfgs.append(dict(kind=kind, syn=syn, dt=dt, max=mmul * dt, delays=delays, B=B, bias=(kind == "dense"), T=(5 if th else 3),
-                                             clear=(delays == "zero")))
+                            ac = 3 if th else (2 if (delays in ("zero", "grid") or kind == "dense") else 0)
+                            cfgs.append(dict(kind=kind, syn=syn, dt=dt, max=mmul * dt, delays=delays, B=B, bias=(kind == "dense"), T=(5 if th else 3), after_clear=ac))
                             if kind == "conv" and delays != "zero" and (th or (syn in ("delta", "single") and dt == 1.3)):
                                 # a kernel with both sides > 1: the flattening order of the per-synapse delays matters
-                                cfgs.append(dict(kind=kind, syn=syn, dt=dt, max=mmul * dt, delays=delays, B=B, bias=False, T=(3 if th else 2), clear=False, geom=(2, 3, 2, 2)))
+                                cfgs.append(dict(kind=kind, syn=syn, dt=dt, max=mmul * dt, delays=delays, B=B, bias=False, T=(3 if th else 2), geom=(2, 3, 2, 2)))
     o = {"div_policy": "xr", "query_timeout_ms": 180000}
     return [Check("shift", h_shift, cfgs, opts=o, timeout_s=2400)]
 
 
 BOUNDS = {
     "quick": {"connections": ["dense 2->2", "direct 2", "lateral 2", "conv 1x2x2 k(1,2) F=2"], "synapses": 5, "dt": [1.0, 1.3], "max delay": "2dt",
-              "delay tensor": "symbolic per synapse: any real in [0,max] / constrained to the grid / all zero", "steps": 3, "batch": 1},
-    "thorough": {"max delay": ["dt", "2dt", "3dt"], "steps": 5, "batch": [1, 2]},
+              "delay tensor": "symbolic per synapse: any real in [0,max] / constrained to the grid / all zero", "steps": "3, then clear() and 2 more (grid/zero delays, and every dense configuration)", "batch": 1},
+    "thorough": {"max delay": ["dt", "2dt", "3dt"], "steps": "5, then clear() and 3 more", "batch": [1, 2]},
 }
 OUTSIDE = ["interpolation tolerance other than 0", "float32 snapping of delay/dt (delays are exact reals; grid points are k * float32(dt))"]
